@@ -608,6 +608,16 @@ def mobility(ctx, ref="FE", solutes=("C", "NI"), sigma="all", homog="wiener uppe
         check_inputs(ctx, be, xval, T, n0)
         rec = be.calls[n0]
         got = {}
+        # by-name oracle: (mobility of element e) x (u-fraction of element e), the u-fraction taken over the substitutional
+        # elements, i.e. those not named in kawin's `interstitials` list -- the names decide, not the slots
+        for p, cs in enumerate(rec["sets"]):
+            ctx.prove("phases are reported in the backend's order", str(md.phases[0][p]) == cs.phase)
+            with _Patched(be):
+                mob_alpha = MOBM.mobility_from_composition_set(cs, th.mobCallables[cs.phase], th.mobility_correction)
+            usum = sum(cs.Xn[a] for a in be.names if a not in MOBM.interstitials)
+            for i, a in enumerate(user):
+                ctx.prove("mobility slot i = mobility of the user's i-th element times its u-fraction (interstitials, by name, left out of the substitutional sum)",
+                          ctx.eq(md.mobility[0][p, i] * usum, mob_alpha[be.names.index(a)] * cs.Xn[a]))
         for i, a in enumerate(user):
             ctx.prove("chemical potential slot i belongs to the user's i-th element", ctx.eq(md.chemical_potentials[0][i], rec["mu"][a]))
             got[("mu", a)] = mu2[i]; got[("avg", a)] = avg[i]
@@ -739,9 +749,12 @@ HARNESSES = [
                               {"ref": "MO", "solutes": ["CR", "NB", "TI"], "sigma": ["NB", "TI", "CR"]}],
                     "thorough": [{"ref": r, "solutes": so} for r, so in _NAMESETS]}),
     Harness("C11.mobility", mobility, functions=_FE, assumptions=_AE, stubs=_SE, bounds=_BE,
-            params={"quick": [{"ref": "FE", "solutes": ["C", "NI"]}, {"ref": "ZR", "solutes": ["CR", "NI"], "homog": "wiener lower"}],
+            params={"quick": [{"ref": "FE", "solutes": ["C", "NI"]}, {"ref": "ZR", "solutes": ["CR", "NI"], "homog": "wiener lower"},
+                              {"ref": "FE", "solutes": ["CR", "N"]}, {"ref": "FE", "solutes": ["CR", "MN", "N"], "sigma": "cycle", "_opts": {"ob_timeout": 60.0}}],
                     "thorough": [dict({"ref": r, "solutes": so, "homog": h}, **({"sigma": "cycle", "_opts": {"ob_timeout": 60.0}} if len(so) > 2 else {}))
-                                 for h in ("wiener upper", "labyrinth") for r, so in _NAMESETS]}),
+                                 for h in ("wiener upper", "labyrinth") for r, so in _NAMESETS]
+                                + [{"ref": "FE", "solutes": ["CR", "N"], "homog": "wiener lower"}, {"ref": "NI", "solutes": ["B", "CR", "H"], "sigma": "cycle", "_opts": {"ob_timeout": 60.0}},
+                                   {"ref": "FE", "solutes": ["CR", "MN", "N"], "_opts": {"ob_timeout": 60.0}}]}),
     Harness("C11.profile", profile, functions=_FE, assumptions=_AE + ["initial compositions in (0.01, 0.3) (above minComposition, sum below 1)"],
             stubs=_SE, bounds=dict(_BE, nodes="N (3 for two solutes; 2 for three solutes, where the time-step claim over 3 nodes did not finish)"),
             budget={"quick": 90.0, "thorough": 900.0},
